@@ -142,8 +142,37 @@ def main():
             except Exception: continue
             k = (j["variant"], j["check"]); enum_t[k] = max(enum_t.get(k, 0), d.get("enum_transitions", 0))
     cov["transitions"] += sum(enum_t.values())
+    # ---- conformance of the virtual MPI with the real one (C16): real mpiexec runs must satisfy the oracle and land in the explored outcome sets
+    conf_validated = 0
+    if plan.get("conformance") and not args.match:
+        allout = os.path.join(outdir, "explored.outcomes")
+        with open(allout, "w") as f:
+            for j in jobs:
+                q = j["out"] + ".outcomes"
+                if os.path.exists(q): f.write(open(q).read())
+        if plan.get("conformance_script", "conformance.py") == "conformance.py":
+            exe = os.path.join(blds[plan["conformance"]], "hx", "conf16")
+            r = subprocess.run([sys.executable, os.path.join(ROOT, "bin", "conformance.py"), exe, allout, tier], stdout=subprocess.PIPE, stderr=subprocess.PIPE, text=True, env=env)
+        else:
+            exe = os.path.join(blds[plan["conformance"]], "hx", "conf06")
+            r = subprocess.run([sys.executable, os.path.join(ROOT, "bin", plan["conformance_script"]), exe, tier], stdout=subprocess.PIPE, stderr=subprocess.PIPE, text=True, env=env)
+        try: cr = json.loads(r.stdout.strip().splitlines()[-1])
+        except Exception: cr = None
+        if cr is None: engine_error = True; print("ENGINE-ERROR: conformance driver failed:", r.stdout[-500:], r.stderr[-500:])
+        else:
+            conf_validated = cr["validated"]; counters["real_mpi_runs"] = cr["runs"]; counters["real_mpi_runs_validated"] = cr["validated"]; counters["real_mpi_distinct_outcomes"] = cr.get("distinct_real_outcomes", 0)
+            samples += cr["samples"][:2]
+            for v in cr["violations"]:
+                e = viols.setdefault(v["key"], dict(key=v["key"], what=v["what"], case=v["case"], count=0, variant=plan["conformance"], check=pid)); e["count"] += 1
+            for m in cr.get("engine_errors", []):
+                engine_error = True; print("ENGINE-ERROR: the virtual MPI does not cover a real behaviour:", m)
     # ---- sanitizer reports: only C17 turns them into violations; others log them
     counters["sanitizer_reports"] = len(san_reports)
+    if plan.get("tsan_is_violation"):
+        for (variant, case, line) in san_reports:
+            if variant != "tsan": continue
+            key = "%s:data-race" % pid
+            e = viols.setdefault(key, dict(key=key, what=line, case=case or "?", count=0, variant=variant, check=(case or "?").split(" ")[0])); e["count"] += 1
     if plan.get("sanitizer_is_violation"):
         for (variant, case, line) in san_reports:
             m = re.search(r"(AddressSanitizer: [a-z\-]+|runtime error: [^\n]{0,80})", line); kind = m.group(1) if m else "sanitizer report"
@@ -171,6 +200,11 @@ def main():
                            argv=[os.path.join(blds[v["variant"]], "hx", "vx"), "replay", dst]), open(path, "w"), indent=1)
             print("VIOLATION property=%s replay=%s" % (pid, path)); print("   key=%s\n   what=%s\n   case=%s" % (v["key"], v["what"][:600], v["case"]))
             continue
+        if ":real-mpi:" in v["key"]:       # a run on the real MPI: its command line is the replay
+            json.dump(dict(property=pid, tier=tier, key=v["key"], what=v["what"], case=v["case"], count=v["count"], variant=v["variant"], check=v["check"],
+                           argv=["bash", "-c", "export OMPI_ALLOW_RUN_AS_ROOT=1 OMPI_ALLOW_RUN_AS_ROOT_CONFIRM=1; cd %s; timeout 600 %s" % (ROOT, v["case"])]), open(path, "w"), indent=1)
+            print("VIOLATION property=%s replay=%s" % (pid, path)); print("   key=%s\n   what=%s\n   case=%s" % (v["key"], v["what"][:600], v["case"]))
+            continue
         json.dump(dict(property=pid, tier=tier, key=v["key"], what=v["what"], case=v["case"], count=v["count"], variant=v["variant"], check=v["check"],
                        replay_cmd="python3 bin/run_check.py --property %s --tier %s --match '%s'" % (pid, tier, v["case"].split(" ", 1)[-1] if v["case"].startswith(v["check"] + " ") else v["case"])),
                   open(path, "w"), indent=1)
@@ -179,7 +213,7 @@ def main():
     # ---- evidence
     uniq = []; [uniq.append(s) for s in samples if s not in uniq]
     cov_out = dict(states=max(cov["states"], 0), transitions=max(cov["transitions"], 0),
-                   traces_validated_against_impl=cov["traces_validated_against_impl"] or cov["evaluations"],
+                   traces_validated_against_impl=(conf_validated if plan.get("conformance") else (cov["traces_validated_against_impl"] or cov["evaluations"])),
                    evaluations=cov["evaluations"], distinct_nontrivial=cov["distinct_nontrivial"],
                    rule=plan.get("rule", ""), samples=uniq[:12] or ["<none>"], exhaustive=bool(exhaustive and not engine_error),
                    bound_completed=" | ".join(bounds), skipped_states=cov["skipped"], counters=counters, near_miss=near[:20],
